@@ -669,3 +669,269 @@ func init() {
 		return out
 	}
 }
+
+// ---------------------------------------------------------------------------------------
+// C16: recursion inventory. Every function on a call cycle inside the generator packages must carry a
+// contract with a `decreases` clause (whose VC is discharged with the function's other obligations).
+
+func (w *World) recursiveFuncs() map[string][]string {
+	// static call graph over repository functions
+	edges := map[string]map[string]bool{}
+	for full, fi := range w.Funcs {
+		if fi.Decl.Body == nil || fi.Obj.Pkg() == nil || !strings.HasPrefix(fi.Obj.Pkg().Path(), modPath) {
+			continue
+		}
+		info := fi.Pkg.TypesInfo
+		ast.Inspect(fi.Decl.Body, func(n ast.Node) bool {
+			call, ok := n.(*ast.CallExpr)
+			if !ok {
+				return true
+			}
+			var fn *types.Func
+			switch f := call.Fun.(type) {
+			case *ast.Ident:
+				fn, _ = info.Uses[f].(*types.Func)
+			case *ast.SelectorExpr:
+				if s := info.Selections[f]; s != nil {
+					fn, _ = s.Obj().(*types.Func)
+				} else {
+					fn, _ = info.Uses[f.Sel].(*types.Func)
+				}
+			}
+			if fn != nil && w.Funcs[fn.FullName()] != nil {
+				if edges[full] == nil {
+					edges[full] = map[string]bool{}
+				}
+				edges[full][fn.FullName()] = true
+			}
+			return true
+		})
+	}
+	// functions that can reach themselves
+	out := map[string][]string{}
+	for start := range edges {
+		seen := map[string]bool{}
+		var stack []string
+		for n := range edges[start] {
+			stack = append(stack, n)
+		}
+		for len(stack) > 0 {
+			n := stack[len(stack)-1]
+			stack = stack[:len(stack)-1]
+			if seen[n] {
+				continue
+			}
+			seen[n] = true
+			for m := range edges[n] {
+				stack = append(stack, m)
+			}
+		}
+		if seen[start] {
+			var cyc []string
+			for n := range seen {
+				// members of the same cycle: those that also reach start
+				cyc = append(cyc, n)
+			}
+			_ = cyc
+			out[start] = nil
+		}
+	}
+	return out
+}
+
+func init() {
+	structuralRules["c16.recursion"] = func(w *World) []OblResult {
+		rec := w.recursiveFuncs()
+		var names []string
+		for full := range rec {
+			names = append(names, full)
+		}
+		sort.Strings(names)
+		var out []OblResult
+		for _, full := range names {
+			fi := w.Funcs[full]
+			key := shortKey(fi.Obj)
+			var probs []string
+			c := w.Contracts[key]
+			if c == nil || c.Decreases == nil {
+				probs = append(probs, "recursive function "+key+" ("+w.pos(fi.Decl.Pos())+") has no decreases clause: termination is not established")
+			}
+			out = append(out, structResult("C16.dec."+key, "recursive function "+key+" carries a termination measure (its VC is discharged with the function's contract)", probs))
+		}
+		return out
+	}
+	debugCmds["recursive"] = func(args []string) int {
+		w, err := LoadWorld()
+		if err != nil {
+			fmt.Println(err)
+			return 1
+		}
+		w.LoadRepoContracts()
+		var names []string
+		for full := range w.recursiveFuncs() {
+			names = append(names, full)
+		}
+		sort.Strings(names)
+		for _, full := range names {
+			fi := w.Funcs[full]
+			c := w.Contracts[shortKey(fi.Obj)]
+			mark := "  "
+			if c != nil && c.Decreases != nil {
+				mark = "ok"
+			}
+			var ps []string
+			sig := fi.Obj.Type().(*types.Signature)
+			for i := 0; i < sig.Params().Len(); i++ {
+				ps = append(ps, sig.Params().At(i).Name()+" "+types.TypeString(sig.Params().At(i).Type(), func(p *types.Package) string { return p.Name() }))
+			}
+			fmt.Printf("%s %-70s (%s)\n", mark, shortKey(fi.Obj), strings.Join(ps, ", "))
+		}
+		return 0
+	}
+}
+
+// ---------------------------------------------------------------------------------------
+// C16: loop inventory. Every loop of the generator code must be of a shape that terminates whenever its body
+// does: a range over a slice, array, string, integer or map (whose body does not insert into the ranged map),
+// or a counting loop `for i := a; i < n; i++` whose counter and bound the body leaves alone. Any other loop
+// needs a variant the contract language cannot state, and is reported.
+
+func init() {
+	structuralRules["c16.loops"] = func(w *World) []OblResult {
+		perPkg := map[string][]string{}
+		count := map[string]int{}
+		for _, fi := range w.Funcs {
+			if fi.Decl.Body == nil || fi.Obj.Pkg() == nil || !strings.HasPrefix(fi.Obj.Pkg().Path(), modPath) {
+				continue
+			}
+			if strings.HasSuffix(w.Fset.Position(fi.Decl.Pos()).Filename, ".pb.go") {
+				continue
+			}
+			info := fi.Pkg.TypesInfo
+			pkg := fi.Obj.Pkg().Path()
+			if _, ok := perPkg[pkg]; !ok {
+				perPkg[pkg] = nil
+			}
+			ast.Inspect(fi.Decl.Body, func(n ast.Node) bool {
+				switch st := n.(type) {
+				case *ast.RangeStmt:
+					count[pkg]++
+					t := info.TypeOf(st.X)
+					if t == nil {
+						perPkg[pkg] = append(perPkg[pkg], "range over untyped expression at "+w.pos(st.Pos()))
+						return true
+					}
+					switch u := t.Underlying().(type) {
+					case *types.Slice, *types.Array, *types.Basic:
+					case *types.Pointer:
+						if _, isArr := u.Elem().Underlying().(*types.Array); !isArr {
+							perPkg[pkg] = append(perPkg[pkg], "range over "+t.String()+" at "+w.pos(st.Pos()))
+						}
+					case *types.Map:
+						ranged := types.ExprString(st.X)
+						ast.Inspect(st.Body, func(m ast.Node) bool {
+							if as, ok := m.(*ast.AssignStmt); ok {
+								for _, l := range as.Lhs {
+									if ix, ok := l.(*ast.IndexExpr); ok && types.ExprString(ix.X) == ranged {
+										perPkg[pkg] = append(perPkg[pkg], "loop at "+w.pos(st.Pos())+" inserts into the map it ranges over")
+									}
+								}
+							}
+							return true
+						})
+					default:
+						perPkg[pkg] = append(perPkg[pkg], "range over "+t.String()+" (channel or iterator function) at "+w.pos(st.Pos())+": termination is not established")
+					}
+				case *ast.ForStmt:
+					count[pkg]++
+					if !countingLoop(info, st) {
+						perPkg[pkg] = append(perPkg[pkg], "loop at "+w.pos(st.Pos())+" is not a range or simple counting loop: termination is not established")
+					}
+				case *ast.BranchStmt:
+					if st.Tok == token.GOTO {
+						perPkg[pkg] = append(perPkg[pkg], "goto at "+w.pos(st.Pos()))
+					}
+				}
+				return true
+			})
+		}
+		var pkgs []string
+		for p := range perPkg {
+			pkgs = append(pkgs, p)
+		}
+		sort.Strings(pkgs)
+		var out []OblResult
+		for _, p := range pkgs {
+			short := strings.TrimPrefix(p, modPath+"/")
+			out = append(out, structResult("C16.loops."+short, fmt.Sprintf("all %d loops of package %s terminate whenever their bodies do (range over finite collections, or counting loops)", count[p], short), perPkg[p]))
+		}
+		return out
+	}
+}
+
+// countingLoop: `for i := a; i < n; i++` (or <=, or i += c with constant c > 0) where the body assigns neither i
+// nor anything occurring in n, and n contains no call other than len.
+func countingLoop(info *types.Info, st *ast.ForStmt) bool {
+	init, ok := st.Init.(*ast.AssignStmt)
+	if !ok || len(init.Lhs) != 1 {
+		return false
+	}
+	iv, ok := init.Lhs[0].(*ast.Ident)
+	if !ok {
+		return false
+	}
+	cond, ok := st.Cond.(*ast.BinaryExpr)
+	if !ok || (cond.Op != token.LSS && cond.Op != token.LEQ) {
+		return false
+	}
+	if ci, ok := cond.X.(*ast.Ident); !ok || ci.Name != iv.Name {
+		return false
+	}
+	switch post := st.Post.(type) {
+	case *ast.IncDecStmt:
+		if pi, ok := post.X.(*ast.Ident); !ok || pi.Name != iv.Name || post.Tok != token.INC {
+			return false
+		}
+	default:
+		return false
+	}
+	boundIdents := map[string]bool{iv.Name: true}
+	okBound := true
+	ast.Inspect(cond.Y, func(n ast.Node) bool {
+		switch e := n.(type) {
+		case *ast.Ident:
+			boundIdents[e.Name] = true
+		case *ast.CallExpr:
+			if f, ok := e.Fun.(*ast.Ident); !ok || f.Name != "len" {
+				okBound = false
+			}
+		}
+		return true
+	})
+	if !okBound {
+		return false
+	}
+	clean := true
+	ast.Inspect(st.Body, func(n ast.Node) bool {
+		switch s := n.(type) {
+		case *ast.AssignStmt:
+			for _, l := range s.Lhs {
+				if id, ok := l.(*ast.Ident); ok && boundIdents[id.Name] {
+					clean = false
+				}
+			}
+		case *ast.IncDecStmt:
+			if id, ok := s.X.(*ast.Ident); ok && boundIdents[id.Name] {
+				clean = false
+			}
+		case *ast.UnaryExpr:
+			if s.Op == token.AND {
+				if id, ok := s.X.(*ast.Ident); ok && boundIdents[id.Name] {
+					clean = false
+				}
+			}
+		}
+		return true
+	})
+	return clean
+}
